@@ -255,6 +255,7 @@ func runC13(c *Ctx) {
 	checkReverseSeekCorrected(c, "C13-R3")
 	checkSeekHeightNonNegative(c, "C13-R3")
 	checkRangeCallbackCopies(c, "C13-R2")
+	checkTypeSwitchArmsAssignSameVar(c, "C13-R2", []*ssa.Function{c.P.Func("wallet", "Wallet", "GetTransactions")})
 
 	runFlagTyping(c, "C13-R4")
 	checkCreditRewriteFlags(c, "C13-R4")
